@@ -212,6 +212,30 @@ static void op_c01_damage(Exec& x, const Json& op, int)
 					if (f.size % bs && !f.blocks.empty()) hit_data(f.map_idx, f.blocks.back().pos);
 					desc.push("extend " + rel);
 					x.probe("c01.file_extended");
+				} else if (what == 5 && !f.blocks.empty() && f.size >= 32 && r.chance(1, 2)) { // (not tiny: later random damage must not be able to re-create the right bytes by chance)
+					// two files of the same disk and size exchanged by rename: each name now holds the other's bytes, stamp and inode
+					const CFile* g = nullptr;
+					for (auto& cand : c.files)
+						if (&cand != &f && cand.map_idx == f.map_idx && cand.size == f.size && cand.inode != f.inode && x.sb.exists(top_of_map(cand.map_idx) + "/" + cand.sub)) { g = &cand; break; }
+					if (!g) continue;
+					std::string rel2 = top_of_map(g->map_idx) + "/" + g->sub;
+					Bytes b1, b2;
+					if (!x.sb.get_file(rel, b1) || !x.sb.get_file(rel2, b2) || b1 == b2) continue;
+					// the recorded contents must differ (not a cp -p copy): a name that ends up with its own bytes under the
+					// other's stamp is a changed stamp, which fix leaves to the next sync, not damage
+					bool recorded_differ = false;
+					for (size_t bi = 0; bi < f.blocks.size() && bi < g->blocks.size(); ++bi) if (f.blocks[bi].hash != g->blocks[bi].hash) recorded_differ = true;
+					if (!recorded_differ) continue;
+					std::vector<uint32_t> st;
+					for (auto& b : f.blocks) if (!dm.hit_data.count({ f.map_idx, b.pos })) st.push_back(b.pos);
+					for (auto& b : g->blocks) if (!dm.hit_data.count({ g->map_idx, b.pos })) st.push_back(b.pos);
+					if (!can_hit(st)) continue;
+					std::string tmp = rel + ".swap-tmp";
+					if (!x.sb.rename_path(rel, tmp) || !x.sb.rename_path(rel2, rel) || !x.sb.rename_path(tmp, rel2)) continue;
+					for (auto& b : f.blocks) hit_data(f.map_idx, b.pos);
+					for (auto& b : g->blocks) hit_data(g->map_idx, b.pos);
+					desc.push("exchange " + rel + " and " + rel2);
+					x.probe("c01.files_exchanged");
 				} else if (!f.blocks.empty()) {
 					// silent corruption of one block, stamp unchanged
 					size_t bi = r.below(f.blocks.size());
@@ -327,6 +351,13 @@ RunPlan gen_history_to_synced(Rng& rng, const std::string& family, uint64_t seed
 	p.seed = seed;
 	p.cfg = gen_config(rng, max_disks, 6, true);
 	for (auto& o : gen_populate(rng, p.cfg, 1, 6)) p.ops.push_back(o);
+	if (rng.chance(1, 4)) {
+		// twins: same disk, same size, written in the same second (only the nanoseconds tell their stamps apart)
+		int64_t d = (int64_t)rng.below(p.cfg.disks.size());
+		uint64_t size = gen_size(rng, p.cfg.block_size());
+		if (size < 64) size = p.cfg.block_size() + 1;
+		for (int i = 0; i < 2; ++i) p.ops.push_back(Json::obj().set("k", "create").set("d", d).set("name", strf("twin/%c", 'A' + i)).set("size", size).set("seed", rng.next() >> 1));
+	}
 	int rounds = (int)rng.range(0, tier ? 4 : 3);
 	bool migrate = rng.chance(1, 4); // a hash migration in progress: only the stripes touched afterwards use the new hash
 	if (migrate && rounds == 0) rounds = 1;
